@@ -2,6 +2,7 @@
 import ast
 import copy
 import datetime as _dtm
+import itertools
 import math
 import os
 import pickle
@@ -18,6 +19,7 @@ THEOREMS = [
     "BeyondVerif.C04.modernLeap_monotone",
     "BeyondVerif.C04.relabel_keeps_instant_and_record",
     "BeyondVerif.C04.relabel_ut1_within_slack",
+    "BeyondVerif.C04.relabel_any_within_slack",
     "BeyondVerif.C04.add_is_constructor",
     "BeyondVerif.C04.add_carries_record_of_utc_day",
     "BeyondVerif.C04.add_function_of_instant",
@@ -389,7 +391,8 @@ def correspondence(ctx):
                 try:
                     start = Date(C03.dt_of(us), scale=sc)
                     rg = Date.range(start, timedelta(microseconds=dur), timedelta(microseconds=step), inclusive=incl)
-                    real = " | ".join(["ok"] + [show(d) for d in rg])
+                    items = list(itertools.islice(iter(rg), 80))       # a broken `+` may never reach the stop date
+                    real = " | ".join(["ok"] + [show(d) for d in items]) if len(items) < 80 else "err runaway-iteration"
                 except ValueError as e:
                     real = "err null-step" if "Null" in str(e) else "err incoherent"
                 lines.append(f"c04.range {envname} {sc} {us} {dur} {step} {int(incl)}")
@@ -918,8 +921,8 @@ def iteration(out, rng, big):
                         inp = {"label": lab, "start": str(start), "step_s": step, "n": n, "kind": kind}
                         fam = f"iteration:{kind}:label-dependent:{lab}"
                         if kind == "daterange":
-                            got = list(Date.range(start, timedelta(seconds=step * n), timedelta(seconds=step)))
-                            ref = list(Date.range(start.change_scale("UTC"), timedelta(seconds=step * n), timedelta(seconds=step)))
+                            got = list(itertools.islice(iter(Date.range(start, timedelta(seconds=step * n), timedelta(seconds=step))), 4 * n))
+                            ref = list(itertools.islice(iter(Date.range(start.change_scale("UTC"), timedelta(seconds=step * n), timedelta(seconds=step))), 4 * n))
                             bad = len(got) != len(ref)
                             for g, r in zip(got, ref):
                                 out.count(key=("iter", kind, lab, str(start), step, str(r)), op="iteration-" + kind, label=lab)
@@ -931,8 +934,8 @@ def iteration(out, rng, big):
                                 out.fail(fam, "dates yielded by Date.range started from this label do not carry the instant / EOP record of the UTC-labelled run", inp,
                                          observed=[(str(g), g.eop.ut1_utc) for g in got][:10], expected=[(str(r), r.eop.ut1_utc) for r in ref][:10])
                         elif step > 0:
-                            got = orb0.ephem(start=start, stop=timedelta(seconds=step * n), step=timedelta(seconds=step))
-                            ref = orb0.ephem(start=start.change_scale("UTC"), stop=timedelta(seconds=step * n), step=timedelta(seconds=step))
+                            got = list(itertools.islice(orb0.iter(start=start, stop=timedelta(seconds=step * n), step=timedelta(seconds=step)), 4 * n))
+                            ref = list(itertools.islice(orb0.iter(start=start.change_scale("UTC"), stop=timedelta(seconds=step * n), step=timedelta(seconds=step)), 4 * n))
                             bad = len(got) != len(ref)
                             obs = exp = None
                             for g, r in zip(got, ref):
